@@ -77,6 +77,10 @@ func boundsReport(w *World, r *Report, b *boundsAn, rule string, kinds map[strin
 			b.fieldOK, b.fieldOKIdx = b.fieldOKIdx, b.fieldOK
 		}
 		ok := b.isGuarded(s.operand, s.ins.Block(), s.need, 0)
+		if s.kind == "lenconst" {
+			c, _ := constInt(s.operand)
+			ok = b.lenAtLeast(s.ins.(*ssa.Slice).X, s.ins.Block(), 0) >= c
+		}
 		if !ok && s.kind == "index" {
 			ok = b.indexFitsArray(s.ins, s.operand) || indexIntoGrownSlice(s.ins, s.operand)
 		}
@@ -85,11 +89,12 @@ func boundsReport(w *World, r *Report, b *boundsAn, rule string, kinds map[strin
 		}
 		b.noWidth = false
 		what := map[string]string{
-			"make":   "allocation sized by device data without an upper bound: a few header bytes make the process allocate (or panic on) an arbitrary length",
-			"divide": "division by a device-derived value that is not proven non-zero: a zero field panics",
-			"slice":  "slice bound taken from device data without a dominating comparison against the slice length: out-of-range panic",
-			"index":  "index taken from device data without a dominating bound check: out-of-range panic",
-			"step":   "a loop advances through a slice by a device-derived step that is not proven positive: a zero step never terminates",
+			"make":     "allocation sized by device data without an upper bound: a few header bytes make the process allocate (or panic on) an arbitrary length",
+			"divide":   "division by a device-derived value that is not proven non-zero: a zero field panics",
+			"slice":    "slice bound taken from device data without a dominating comparison against the slice length: out-of-range panic",
+			"index":    "index taken from device data without a dominating bound check: out-of-range panic",
+			"lenconst": "constant slice bound on a buffer whose length is device data, without a dominating test that the buffer is that long: a short buffer panics",
+			"step":     "a loop advances through a slice by a device-derived step that is not proven positive: a zero step never terminates",
 		}[s.kind]
 		r.Check(ok, rule, fnName(s.fn), cons, w.relFile(instrPos(s.ins)), s.describe(b), what+" — "+s.describe(b))
 	}
